@@ -32,7 +32,11 @@ package pki
 //@   ghost same bool = false
 //@   ghost compared bool = false
 //@   ghost issued bool = false
-//@   at call AddCert#1: assert the-only-trusted-root-is-the-client-ca: callarg0 == caPool && callarg1 == caCert
+//@   ghost caParsed *x509.Certificate = nil
+//@   ghost adds int = 0
+//@   at after call ParseCertificate#*: ghost caParsed := (callarg0 == p.ClientCA.Certificate[0] ? callresult0 : caParsed)
+//@   at call AddCert#*: assert the-only-trusted-root-is-the-first-certificate-of-the-client-ca-added-once: callarg0 == caPool && callarg1 == caCert && caCert == caParsed && caParsed != nil && adds == 0
+//@   at call AddCert#*: ghost adds := adds + 1
 //@   at call Verify#1: assert chain-is-verified-against-the-client-ca-for-client-auth: callarg0 == oldCert && callarg1.Roots == caPool
 //@   at after call Verify#1: ghost verr := callresult1
 //@   at after call Verify#1: ghost verified := true
@@ -47,5 +51,5 @@ package pki
 //@   at after call Equal#1: ghost compared := true
 //@   at call GenerateCertificate#1: assert renewed-only-for-the-key-holder-and-with-the-same-subject: verified && verr == nil && extracted && ierr == nil && identity.Version != pki.TokenV1 && proved && perr == nil && compared && same && callarg1 == p.ClientCA && callarg2.PublicKey == d.PubKey && callarg2.Subject == oldCert.Subject
 //@   at call GenerateCertificate#1: ghost issued := true
-//@   ensures local-success-means-renewed-under-all-conditions: err == nil ==> issued
+//@   ensures local-success-means-renewed-under-all-conditions: err == nil ==> (issued && adds == 1)
 //@   ensures local-refusals-issue-nothing: ((verified && verr != nil) || (extracted && ierr != nil) || (proved && perr != nil) || (compared && !same)) ==> (err != nil && !issued)
